@@ -62,6 +62,8 @@ package ir
 //@   requires fn != nil
 //@   ensures [C03.callee] [C04.norm] context == nil || parentI(context) == nil || rootF(fn) != rootF(parentI(context)) ==> result == stringF(fn)
 //@   ensures [C02.selfname] context != nil && parentI(context) != nil && fn == parentI(context) && parentF(fn) == nil ==> result == "self"
+// inside the family nothing but the position relative to the family root is rendered (no name of the root)
+//@   ensures [C02.selfname] context != nil && parentI(context) != nil && rootF(fn) == rootF(parentI(context)) ==> result == "self" + trimPrefix(nameF(fn), nameF(rootF(fn)))
 
 //@ func (*Canonicalizer).NormalizeOperand
 //@   noframe
@@ -170,3 +172,15 @@ package ir
 //@   uses gotypes
 //@   call sanitizeType assert [C02.types] !hasType(a0, "*types.Tuple")
 //@   call go/types.TypeString assert [C02.types] false
+
+// ---- C01: call hoisting visits the blocks and instructions of a loop in a determined order: whether a call's
+// arguments count as invariant depends on what was hoisted before it, so the visiting order reaches the output.
+//@ func (*Canonicalizer).hoistInvariantCalls
+//@   noframe
+//@   protocol-only C01
+//@   loop 1 ordered [C01.hoistorder]
+//@   loop 4 ordered [C01.hoistorder]
+//@   loop 5 ordered [C01.hoistorder]
+//@   loop 6 ordered [C01.hoistorder]
+//@   loop 7 ordered [C01.hoistorder]
+//@   loop 8 ordered [C01.hoistorder]
